@@ -51,7 +51,14 @@ impl TW {
             self.dead = true;
         }
         let nb = self.w.take_new_bytes();
-        let e = e.res(r).bytes("nb", &nb);
+        // flush() calls that reached the backend since the previous event of any writer
+        let bf = backend_flushes();
+        let bfl = BFL_SEEN.with(|c| {
+            let d = bf - c.get();
+            c.set(bf);
+            d
+        });
+        let e = e.res(r).bytes("nb", &nb).i("bfl", bfl as i64);
         match (self.closed, self.w_counter()) {
             (false, Some(c)) => e.i("cnt", c as i64),
             _ => e,
@@ -117,6 +124,10 @@ impl TW {
         self.dead = true;
         r
     }
+}
+
+thread_local! {
+    static BFL_SEEN: std::cell::Cell<u64> = const { std::cell::Cell::new(0) };
 }
 
 fn ret_of(r: &Out<usize>) -> i64 {
